@@ -195,7 +195,12 @@ def c10_run(rep, rng, tier, term):
             if s.base_str != t:
                 viol.append({'oracle': 'C10.receiver', 'case': payload, 'msg': '%s changed the receiver text' % name})
                 break
-    return viol, delegation_div
+    # A method that no longer has the syntactic delegating shape is NOT an alarm by itself (a loop with setattr, a decorator or a
+    # shared helper delegate just as well): the tie for these methods is the differential run above, which calls every one of
+    # them on every generated text and compares with str.  The shape report is kept in the evidence.
+    if changed:
+        rep.notes.append('delegating shape not recognised (tie = differential run against str for these methods): %s' % sorted(set(m for (_, m, _) in changed)))
+    return viol, []
 
 
 def c10_replay(v, term):
@@ -243,9 +248,19 @@ class Positional(tuple):
     """settings given as SEVERAL positional constructor arguments: AnsiString('x', *settings)"""
 
 
+class ClassesDisagree(Exception):
+    pass
+
+
 def settings_of(form):
     s = AnsiString('x', *form) if isinstance(form, Positional) else AnsiString('x', form)
-    return [str(x) for x in s.ansi_settings_at(0)], str(s)
+    out = [str(x) for x in s.ansi_settings_at(0)], str(s)
+    # the immutable class takes the same spellings: its constructor must report the same
+    t = AnsiStr('x', *form) if isinstance(form, Positional) else AnsiStr('x', form)
+    out2 = [str(x) for x in t.ansi_settings_at(0)], t.to_str()
+    if out2 != out or str.__str__(t) != out[1]:
+        raise ClassesDisagree('AnsiStr gives %s (payload %r), AnsiString gives %s' % (out2, str.__str__(t), out))
+    return out
 
 
 def c14_run(rep, rng, tier, term):
@@ -253,6 +268,12 @@ def c14_run(rep, rng, tier, term):
     reqs, meta = [], []
     def check_equal(kind, ref_form, forms, payload):
         ref = call(lambda: settings_of(ref_form))
+        if ref == ('err', 'ClassesDisagree'):
+            try:
+                settings_of(ref_form)
+            except Exception as e:  # noqa
+                viol.append({'oracle': 'C14.' + kind, 'case': dict(payload, form=repr(ref_form)), 'msg': 'the two classes disagree on %r: %s' % (ref_form, e)})
+            return
         for f in forms:
             got = call(lambda: settings_of(f))
             p = dict(payload); p['form'] = repr(f)
